@@ -26,9 +26,24 @@ public:
         if (this->count.size() != array.dataExtent().size()) {
             throw IncompatibleDimensions("DataView count dimensionality does not match dimensionality of data", "nix::DataView");
         }
-        if (this->offset + this->count > array.dataExtent()) {
+        if (exceeds(this->count, this->offset, array.dataExtent())) {
             throw OutOfBounds("Trying to create DataView which is out of bounds");
         }
+    }
+
+    /**
+     * @brief Test whether offset + count reaches beyond limit in any dimension.
+     *
+     * The sum is unsigned and can wrap around; a wrapped sum is beyond every limit.
+     */
+    static bool exceeds(const NDSize &count, const NDSize &offset, const NDSize &limit) {
+        NDSize end = offset + count;
+        for (size_t i = 0; i < end.size(); i++) {
+            if (end[i] < offset[i]) {
+                return true;
+            }
+        }
+        return end > limit;
     }
 
     // the DataIO interface implementation
